@@ -640,6 +640,10 @@ def withdraw_rules(R, env, prog, hctx, rule, pid):
     # removal on every success path, under the caller's own key
     rms = [op for op in storage_ops_deep(prog, hctx, env.depth) if op["kind"] == "w" and ns_of(prog, op["args"][0]) == "unstake_requests"]
     R.ob(rule, "Withdraw:one-request-write", len(rms) == 1 and rms[0]["op"] == "remove", "unstake_requests writes in Withdraw: %s" % [o["op"] for o in rms], fn=hk)
+    # nothing else is written: in particular the batch record (status, received amount, total) stays
+    # as it is, so that the other requesters of the batch can still withdraw their share
+    others = [(ns_of(prog, op["args"][0]), op["op"]) for op in storage_ops_deep(prog, hctx, env.depth) if op["kind"] == "w" and ns_of(prog, op["args"][0]) != "unstake_requests"]
+    R.ob(rule, "Withdraw:writes-nothing-else", not others, "Withdraw also writes %s: a withdrawal must not change what the other requesters of the batch can claim" % others, fn=hk)
     for op in rms:
         R.ob(rule, "Withdraw:removes-own-request", req_key(op["args"][2]), "request removed under key %s, expected (loaded batch id, info.sender)" % fmt(op["args"][2])[:160], loc=op["loc"], fn=hk)
         R.ob(rule, "Withdraw:removal-on-every-success-path", must_pass(hctx, op["root_bb"]), "a success exit (payout) is reachable without deleting the claim: it can be withdrawn again", loc=op["loc"], fn=hk)
